@@ -151,6 +151,68 @@ def run_shard(desc):
         if ng >= 2 or kind != "ideal":
             sh.nontrivial += 1
         sh.outcomes.add((kind, len(found) - n_expected))
+    # ---- further ways of driving the search, ideal data, one hkl_tol: (a) only one ring available (data restricted to it, or
+    # rings_to_use=[r]): the ring must be paired with itself; (b) the search repeated on the same indexer object (as indexing.index()
+    # does with its list of (minpks, hkl_tol) settings): grains found in the first pass must not be reported again
+    allgv = np.ascontiguousarray(np.concatenate(gv_grain))
+    dsall = np.sqrt((allgv * allgv).sum(axis=1))
+    mults = {}
+    for v in hk.values():
+        mults[round(v, 6)] = mults.get(round(v, 6), 0) + 1
+    best_ring = max(mults, key=lambda d: (mults[d], -d))
+
+    def judge(found, what, case2):
+        for a, b in itertools.combinations(range(len(found)), 2):
+            if O.lattice_equivalent(found[a], found[b], tol=0.02):
+                sh.violation("%s:same-lattice-reported-twice" % what, case2, {"reported": len(found)})
+                return
+        m = [sum(1 for u in found if O.lattice_equivalent(u, t, tol=0.02)) for t in ubis_true]
+        if any(x != 1 for x in m) or len(found) != ng:
+            sh.violation("%s:grains-not-found-exactly-once" % what, case2, {"matches_per_true_grain": m, "reported": len(found)})
+
+    if mults[best_ring] >= 6:
+        for mode in ("data_on_one_ring", "rings_to_use"):
+            gsel = allgv[np.abs(dsall - best_ring) < 1e-5] if mode == "data_on_one_ring" else allgv
+            uc = ucm.unitcell(cell, sym)
+            minp = int(0.6 * mults[best_ring]) if mode == "data_on_one_ring" else int(0.5 * nref)
+            ind = indexing.indexer(unitcell=uc, gv=gsel.copy(), cosine_tol=0.002, minpks=minp, hkl_tol=0.02, ds_tol=0.005, wavelength=0.3, uniqueness=0.5,
+                                   max_grains=100)
+            ind.assigntorings()
+            rid = int(np.argmin(np.abs(np.array(uc.ringds) - best_ring)))
+            case2 = {"lattice": li, "cell": cell, "sym": sym, "ngrains": ng, "data": "single_ring:" + mode, "seed": seed_of()}
+            if mode == "data_on_one_ring":
+                ind.score_all_pairs()
+            else:
+                ind.score_all_pairs(rings_to_use=[rid])
+            judge([np.array(u) for u in ind.ubis], "single-ring[%s]" % mode, case2)
+            sh.evaluations += 1
+            sh.nontrivial += 1
+    for mode in ("score_all_pairs_twice", "indexing.index", "assigntorings_between"):
+        case2 = {"lattice": li, "cell": cell, "sym": sym, "ngrains": ng, "data": "repeat:" + mode, "seed": seed_of()}
+        uc = ucm.unitcell(cell, sym)
+        if mode == "indexing.index":
+            from ImageD11 import columnfile as cfm
+            cf = cfm.colfile_from_dict({"gx": allgv[:, 0].copy(), "gy": allgv[:, 1].copy(), "gz": allgv[:, 2].copy()})
+            for k_, v in zip(("cell__a", "cell__b", "cell__c", "cell_alpha", "cell_beta", "cell_gamma"), cell):
+                cf.parameters.set(k_, v)
+            cf.parameters.set("cell_lattice_[P,A,B,C,I,F,R]", sym)
+            cf.parameters.set("wavelength", 0.3)
+            ind = indexing.index(cf, npk_tol=[(int(0.8 * nref), 0.01), (int(0.5 * nref), 0.02)], cosine_tol=0.002, ds_tol=0.005, max_grains=100, rmulmax=48,
+                                 log_level=4)
+        else:
+            ind = indexing.indexer(unitcell=uc, gv=allgv.copy(), cosine_tol=0.002, minpks=int(0.8 * nref), hkl_tol=0.01, ds_tol=0.005, wavelength=0.3, uniqueness=0.5,
+                                   max_grains=100)
+            ind.assigntorings()
+            ind.score_all_pairs()
+            if mode == "assigntorings_between":
+                ind.assigntorings()
+            ind.minpks = int(0.5 * nref)
+            ind.hkl_tol = 0.02
+            ind.score_all_pairs()
+        indexing.loglevel = 4
+        judge([np.array(u) for u in ind.ubis], "repeated-search[%s]" % mode, case2)
+        sh.evaluations += 1
+        sh.nontrivial += 1
     sh.sample(dict(case, reflections_per_grain=nref, found=len(found)), limit=1)
     return sh
 
@@ -158,5 +220,5 @@ def run_shard(desc):
 def replay(case):
     os.environ["VERIF_SEED"] = str(case.get("seed", 0))
     r = run_shard(("index", case["lattice"], case["ngrains"], "thorough"))
-    v = [x for x in r.violations if all(x["case"][k] == case[k] for k in ("hkl_tol", "cosine_tol", "minpks", "ds_tol", "data"))]
+    v = [x for x in r.violations if all(x["case"].get(k) == case.get(k) for k in ("hkl_tol", "cosine_tol", "minpks", "ds_tol", "data"))]
     return (not v), {"violations": v[:3]}
